@@ -290,3 +290,42 @@ impl Lattice {
         Ok(())
     }
 }
+
+#[cfg(feature = "verif")]
+impl Lattice {
+    /// Number of boundaries of the current lattice (length in codepoints + 1)
+    pub fn verif_size(&self) -> usize {
+        self.size
+    }
+
+    /// Copies of the nodes which end at the boundary, in insertion order (BOS is not included)
+    pub fn verif_nodes(&self, end: usize) -> Vec<crate::verif::NodeView> {
+        let mut res = Vec::new();
+        if end >= self.size {
+            return res;
+        }
+        // boundary 0 holds only the BOS VNode, which has no full node
+        let shift = if end == 0 { 1 } else { 0 };
+        for (i, n) in self.ends_full[end].iter().enumerate() {
+            let v = &self.ends[end][i + shift];
+            let p = self.indices[end][i];
+            res.push(crate::verif::NodeView {
+                begin: n.begin(),
+                end: n.end(),
+                left_id: n.left_id(),
+                right_id: n.right_id(),
+                cost: n.cost(),
+                word_id: n.word_id().as_raw(),
+                total_cost: v.total_cost,
+                prev_end: p.end(),
+                prev_index: p.index(),
+            });
+        }
+        res
+    }
+
+    /// (end, index) of the node connected to EOS and the total cost of the best path
+    pub fn verif_eos(&self) -> Option<(u16, u16, i32)> {
+        self.eos.map(|(idx, cost)| (idx.end(), idx.index(), cost))
+    }
+}
